@@ -616,16 +616,17 @@ def req_relation_factory(seb: C.SemanticElementBuilder) -> diagram.Edge:
                 "Requirement-Relation %r has no RelationType",
                 seb.data_element.attrib[C.ATT_XMID],
             )
-        finally:
-            seb.melodyobjs[0].attrib["name"] = label
 
-    return generic_factory(seb)
+    with C.temporary_attribute(seb.melodyobjs[0], "name", label):
+        return generic_factory(seb)
 
 
 def include_extend_factory(seb: C.SemanticElementBuilder) -> diagram.Edge:
     """Create an AbstractCapabilityIncludes or -Extends edge."""
     if seb.melodyobjs[0].get("name") is None:
-        seb.melodyobjs[0].attrib["name"] = seb.diag_element.get("name", "")
+        name = seb.diag_element.get("name", "")
+        with C.temporary_attribute(seb.melodyobjs[0], "name", name):
+            return generic_factory(seb)
     return generic_factory(seb)
 
 
